@@ -65,6 +65,10 @@ type fileSyntax struct {
 	Comments       bool  `json:"comments,omitempty"`         // comment lines and blank lines between the keys
 	Indent         int   `json:"indent,omitempty"`           // blanks in front of the keys (0: two)
 	DocStart       bool  `json:"document_start,omitempty"`   // "---" in front
+	// Kind: what kind of file system object ./config.yaml is: "" a regular file, "symlink" / "symlink-chain" a symbolic
+	// link (chain) to a regular file elsewhere (a mounted ConfigMap, a link into src/), "fifo" a named pipe fed in two
+	// writes by another process (a generated configuration)
+	Kind string `json:"file_kind,omitempty"`
 }
 
 // yamlQuote writes a YAML double-quoted scalar; everything outside printable ASCII is escaped.
@@ -457,6 +461,7 @@ func converse(sp spawn, sc refamf.Scenario, limit time.Duration) *convResult {
 		// messages the network sends late: the time they are held back (plus the polling interval) is not the emulator's
 		limit += time.Duration(u.CUCDelayMs+u.SetupDelayMs)*time.Millisecond + 400*time.Millisecond*time.Duration(b2i(u.CUCDelayMs > 0)+b2i(u.SetupDelayMs > 0))
 	}
+	limit += time.Duration(sc.Fault.DelayMs) * time.Millisecond
 	fds, err := syscall.Socketpair(syscall.AF_UNIX, syscall.SOCK_SEQPACKET|syscall.SOCK_CLOEXEC, 0)
 	if err != nil {
 		res.StartErr = fmt.Errorf("socketpair: %v", err)
@@ -508,6 +513,7 @@ func converse(sp spawn, sc refamf.Scenario, limit time.Duration) *convResult {
 	}
 	var held []heldDL
 	var prevDL []byte // the downlink message sent before the current one
+	faultHeld := false // a delayed undecodable answer is (or was) queued: later downlink messages queue behind it
 loop:
 	for {
 		n, err := syscall.Read(amfFd, buf)
@@ -576,6 +582,16 @@ loop:
 				res.FaultDone, res.ULAtFault, res.DLAtFault = true, amf.ULCount(), base+i+1
 				amf.Note("fault", fmt.Sprintf("association closed right after downlink %d was sent (write error: %v)", f.Index, werr))
 				break loop
+			}
+			if f.Kind == "garbage" && f.DelayMs > 0 && (base+i == f.Index || faultHeld) {
+				// the late undecodable answer, and whatever follows it, in order
+				due := time.Now()
+				if base+i == f.Index {
+					due = due.Add(time.Duration(f.DelayMs) * time.Millisecond)
+				}
+				held = append(held, heldDL{append([]byte{}, d...), due, -1})
+				faultHeld = true
+				continue
 			}
 			if delay, k := cucDelay(amf, sc, base+i); delay > 0 && f.Kind == "" {
 				held = append(held, heldDL{append([]byte{}, d...), time.Now().Add(delay), k})
@@ -770,6 +786,56 @@ func haveBins(t *testing.T, names ...string) {
 }
 
 func writeFile(path, content string) error { return os.WriteFile(path, []byte(content), 0644) }
+
+// writeConfig puts the configuration of a case into dir as ./config.yaml, as the kind of object the case asks for.
+func writeConfig(dir string, c emuConfig) error {
+	text := c.YAML()
+	switch c.Syntax.Kind {
+	case "symlink", "symlink-chain":
+		if err := os.MkdirAll(filepath.Join(dir, "mounted", "..data"), 0755); err != nil {
+			return err
+		}
+		if err := writeFile(filepath.Join(dir, "mounted", "..data", "stg.yaml"), text); err != nil {
+			return err
+		}
+		target := filepath.Join("mounted", "..data", "stg.yaml")
+		if c.Syntax.Kind == "symlink-chain" {
+			if err := os.Symlink(filepath.Join("..data", "stg.yaml"), filepath.Join(dir, "mounted", "stg.yaml")); err != nil {
+				return err
+			}
+			target = filepath.Join("mounted", "stg.yaml")
+		}
+		return os.Symlink(target, filepath.Join(dir, "config.yaml"))
+	case "fifo":
+		path := filepath.Join(dir, "config.yaml")
+		if err := syscall.Mkfifo(path, 0644); err != nil {
+			return err
+		}
+		go func() {
+			// the writer side: waits (without blocking for ever) until somebody opens the pipe for reading
+			deadline := time.Now().Add(30 * time.Second)
+			for time.Now().Before(deadline) {
+				fd, err := syscall.Open(path, syscall.O_WRONLY|syscall.O_NONBLOCK, 0)
+				if err == syscall.ENXIO || err == syscall.EINTR {
+					time.Sleep(3 * time.Millisecond)
+					continue
+				}
+				if err != nil {
+					return // the case is over, its directory is gone
+				}
+				_ = syscall.SetNonblock(fd, false)
+				half := len(text) / 2
+				_, _ = syscall.Write(fd, []byte(text[:half]))
+				time.Sleep(15 * time.Millisecond)
+				_, _ = syscall.Write(fd, []byte(text[half:]))
+				_ = syscall.Close(fd)
+				return
+			}
+		}()
+		return nil
+	}
+	return writeFile(filepath.Join(dir, "config.yaml"), text)
+}
 func removeAll(dir string)                 { os.RemoveAll(dir) }
 
 // retryOnce wraps an evaluation for the rapid-driven (sequential) tests: the first time-out
